@@ -195,7 +195,7 @@ fn unit_prices(w: &W, db: &Db) -> Prices<u128> {
 
 pub fn run(cli: &Cli) -> Report {
     let mut rep = Report::new(cli, "exploration");
-    rep.rule("E1 differential on identical account bytes: (a) sizes of every zero-copy account type declared for the SDK against the program's; (b) every model accessor (all config keys through their named parameters, flags, every pool side, balances, clocks-independent state) of the program Market and of the SDK MarketModel over a family of market contents (real markets, all keys populated, closed x closed-params x every config flag, all pools populated through a real RevertibleMarket, a pure market); (c) swaps (both directions x amounts) and fee-state updates executed on a real RevertibleMarket and on the SDK model with the same stubbed time, comparing reports and the resulting views; (d) real create/execute deposit and withdrawal instructions against the SDK's simulated deposit/withdrawal: minted/paid amounts and resulting market views; non-trivial = both sides produced a result that was compared");
+    rep.rule("E1 differential on identical account bytes: (a) sizes of every zero-copy account type declared for the SDK against the program's; (b) every model accessor (all config keys through their named parameters, flags, every pool side, balances, clocks-independent state) of the program Market and of the SDK MarketModel over a family of market contents (real markets, all keys populated, closed x closed-params x every config flag, all pools populated through a real RevertibleMarket, a pure market); (c) swaps (both directions x amounts) and fee-state updates executed on a real RevertibleMarket and on the SDK model with the same stubbed time (at, after and before the clocks stored in the market), comparing reports, the resulting views and the clocks; (d) real create/execute deposit and withdrawal instructions against the SDK's simulated deposit/withdrawal: minted/paid amounts and resulting market views; non-trivial = both sides produced a result that was compared");
     rep.assume("position increase/decrease differential needs the program's revertible position (not hooked) and is not covered; the order fee discount comparison is C31");
     if let Some(rv) = &cli.replay {
         rep.sample(json!({"note": "closed-form case: re-run the quick tier", "case": rv}));
@@ -221,7 +221,8 @@ pub fn run(cli: &Cli) -> Report {
     if th {
         amounts.extend((1..40).map(|k| k * 77_773));
     }
-    let variants: Vec<(bool, i64)> = vec![(true, 0), (false, 0), (true, 3_600), (false, 86_400)];
+    // (a negative offset = the observer's time is behind the clocks stored in the market: nothing has passed and the clocks stay)
+    let variants: Vec<(bool, i64)> = vec![(true, 0), (false, 0), (true, 3_600), (false, 86_400), (true, -5), (false, -400)];
     e1::run(&mut rep, "swap and fee-state differential", &variants, |&(long_in, dt), sink| {
         for &amount in &amounts {
             let mut d = db.clone();
@@ -261,6 +262,12 @@ pub fn run(cli: &Cli) -> Report {
                         if x != y {
                             sink.fail("C40/state_after_execution_differs", format!("swap(long_in {long_in}, {amount}) after {dt}s: {n}: program {x:?}, SDK {y:?}"), rp());
                         }
+                    }
+                    // the clocks both sides advanced (impact distribution and funding; the SDK model has no borrowing update)
+                    let pc = [after.clock(gmsol_model::ClockKind::PriceImpactDistribution), after.clock(gmsol_model::ClockKind::Funding)];
+                    let sc = [Some(model.state.clocks.price_impact_distribution), Some(model.state.clocks.funding)];
+                    if pc != sc {
+                        sink.fail("C40/state_after_execution_differs", format!("swap(long_in {long_in}, {amount}) after {dt}s: clocks (impact distribution, funding): program {pc:?}, SDK {sc:?}"), rp());
                     }
                 }
                 (Err(_), Err(_)) => {}
